@@ -2,7 +2,7 @@
    the model, FIPS vectors for the Gallina SHA-256, and golden paths (produced by the pinned
    implementation) that the kernel re-computes from the model with that SHA-256. *)
 From Coq Require Import String Ascii List Bool Arith ZArith.
-From TC Require Import PyStr Value Dict Repr Param Config Key Chain World Eval Sha256 KeyProofs.
+From TC Require Import PyStr Value Dict Repr Param Config Key Chain World Eval Sha256 KeyProofs Naming NamingProofs.
 Import ListNotations.
 
 (* key = first 32 hex digits of the hash of  <parameters>$$$<inputs> *)
@@ -98,3 +98,27 @@ Example C12_golden_multi_config :
   = Some [((lit "ns::abc"), (lit "abc/cda196bce859bdd5ef59064790f5f180.json"), (lit "abc/cda196bce859bdd5ef59064790f5f180.run_info.yaml"), (lit "abc/cda196bce859bdd5ef59064790f5f180.log")); ((lit "ns2::abc"), (lit "abc/db3035311063cb80455243d79db1752f.json"), (lit "abc/db3035311063cb80455243d79db1752f.run_info.yaml"), (lit "abc/db3035311063cb80455243d79db1752f.log")); ((lit "ns2::g:dfg"), (lit "g/dfg/22a1b57d9830d0ee7f27e3001169e902.json"), (lit "g/dfg/22a1b57d9830d0ee7f27e3001169e902.run_info.yaml"), (lit "g/dfg/22a1b57d9830d0ee7f27e3001169e902.log"))].
 Proof. vm_compute. reflexivity. Qed.
 
+
+(* ---- the names of tasks (the directory of a task's results and part of the key text of its dependants) ---- *)
+
+(* an explicit Meta.name is used verbatim: no case change, no suffix stripped *)
+Theorem C12_explicit_name_verbatim : forall group n cname,
+  slug_name group (Some n) cname = match group with [] => n | _ => group ++ [colon] ++ n end.
+Proof. exact explicit_name_verbatim. Qed.
+Print Assumptions C12_explicit_name_verbatim.
+
+(* without Meta.name: the class name in snake case, without a trailing _task, behind the group *)
+Theorem C12_derived_name : forall group cname,
+  slug_name group None cname =
+  match group with [] => default_name cname | _ => group ++ [colon] ++ default_name cname end.
+Proof. exact derived_name. Qed.
+Print Assumptions C12_derived_name.
+
+Theorem C12_derived_name_has_no_capitals : forall cname c, In c (default_name cname) -> is_upper c = false.
+Proof. exact default_name_lower. Qed.
+Print Assumptions C12_derived_name_has_no_capitals.
+
+Theorem C12_full_name : forall ns slug,
+  full_name None slug = slug /\ full_name (Some ns) slug = ns ++ lit "::" ++ slug.
+Proof. intros ns slug. split; [apply full_name_none|apply full_name_some]. Qed.
+Print Assumptions C12_full_name.
